@@ -2,12 +2,12 @@
 
    [declarator_of t x] (Spec/DeclSpec6_7_6.v) writes a type as base type + declarator, the way C programmers and
    type printers do (parentheses exactly where a pointer meets an array or function suffix).  For every valid
-   C11 type - no arrays of functions, no functions returning arrays or functions, adjusted non-void parameter types,
-   bounds below 2^31, and not a function type when the identifier is omitted -
+   C11 type - no arrays of functions, no functions returning arrays or functions, adjusted non-void parameter types -
 
-     * the declarator is C11 syntax that chibicc supports,
+     * the declarator is C11 syntax,
      * the standard's derivation gives back exactly t  (every derived type HAS a declarator), and therefore
-     * parse.c, run on the written declarator, rebuilds t.                                                   *)
+     * parse.c, run on the written declarator, rebuilds t - or answers "array too large".
+   (Update 2: function types without identifier and bounds of any size are covered now.)                      *)
 From Coq Require Import List ZArith Bool Lia.
 From Chibicc Require Import Spec.DeclSyntax Spec.DeclSpec6_7_6 Model.Declarator
      Proofs.DeclaratorParse Proofs.DeclaratorTypes.
@@ -35,15 +35,6 @@ Section TyInd.
     end.
 End TyInd.
 
-(* every array bound, parameters included, below 2^31 *)
-Fixpoint small (t : ty) : bool :=
-  match t with
-  | TLeaf _ => true
-  | TPtr _ t' => small t'
-  | TArr n e => small e && match n with Some k => k <? 2147483648 | None => true end
-  | TFun r ps _ => small r && forallb small ps
-  end.
-
 (* the pieces of decl_for's function case, as named functions *)
 Definition param_for (p : ty) : param :=
   let bd := decl_for p (DDirect (DIdent None)) in Param (fst bd) (snd bd).
@@ -70,19 +61,13 @@ Lemma as_direct_name : forall d, name_of_dd (as_direct d) = name_of d.
 Proof. destruct d; reflexivity. Qed.
 Lemma as_direct_c11 : forall d, c11_ok d = true -> c11_ok_dd (as_direct d) = true.
 Proof. destruct d as [q d|dd]; intros H; [|exact H]. cbn [as_direct c11_ok_dd is_empty_decl negb andb]. exact H. Qed.
-Lemma as_direct_chibicc : forall d, chibicc_ok d = true -> chibicc_ok_dd (as_direct d) = true.
-Proof. destruct d as [q d|dd]; intros H; exact H. Qed.
 Lemma as_direct_func : forall d, is_func_dd (as_direct d) = is_func_decl d.
 Proof. destruct d as [q d|dd]; [reflexivity|]. destruct dd; reflexivity. Qed.
-Lemma as_direct_empty : forall d, is_empty_dd (as_direct d) = is_empty_decl d.
-Proof. destruct d as [q d|dd]; [reflexivity|]. destruct dd as [[x|]| | |]; reflexivity. Qed.
-
 Definition U (t : ty) : Prop :=
-  forall inner, valid_ty t = true -> small t = true ->
-    c11_ok inner = true -> chibicc_ok inner = true ->
+  forall inner, valid_ty t = true ->
+    c11_ok inner = true ->
     (is_func_decl inner = true -> is_fun t = false /\ is_arr t = false) ->
-    (is_empty_decl inner = true -> is_fun t = false) ->
-    c11_ok (snd (decl_for t inner)) = true /\ chibicc_ok (snd (decl_for t inner)) = true /\
+    c11_ok (snd (decl_for t inner)) = true /\
     name_of (snd (decl_for t inner)) = name_of inner /\
     apply_dtl (dtl (snd (decl_for t inner))) (TLeaf (fst (decl_for t inner))) = apply_dtl (dtl inner) t.
 
@@ -92,56 +77,51 @@ Definition param_cond (p : ty) : bool :=
 Lemma adjust_id : forall p, is_fun p = false -> is_arr p = false -> adjust p = p.
 Proof. intros p H1 H2. destruct p; try reflexivity; discriminate. Qed.
 
-Lemma param_for_ok : forall p, U p -> param_cond p = true -> small p = true ->
-  c11_ok_param (param_for p) = true /\ chibicc_ok_param (param_for p) = true /\ param_type (param_for p) = p.
+Lemma param_for_ok : forall p, U p -> param_cond p = true ->
+  c11_ok_param (param_for p) = true /\ param_type (param_for p) = p.
 Proof.
-  intros p HU Hc Hs. unfold param_cond in Hc.
+  intros p HU Hc. unfold param_cond in Hc.
   apply andb_prop in Hc. destruct Hc as [Hc Hv]. apply andb_prop in Hc. destruct Hc as [Hc Hnv].
   apply andb_prop in Hc. destruct Hc as [Hnf Hna].
   apply negb_true_iff in Hnf. apply negb_true_iff in Hna. apply negb_true_iff in Hnv.
-  destruct (HU (DDirect (DIdent None)) Hv Hs eq_refl eq_refl) as [H1 [H2 [_ H4]]].
+  destruct (HU (DDirect (DIdent None)) Hv eq_refl) as [H1 [_ H4]].
   - intros H. discriminate H.
-  - intros _. exact Hnf.
-  - unfold param_for. cbn [c11_ok_param chibicc_ok_param param_type].
+  - unfold param_for. cbn [c11_ok_param param_type].
     cbn [dtl dtl_dd apply_dtl fold_right] in H4.
-    split; [|split].
+    split.
     + rewrite H1. cbn [andb]. apply negb_true_iff.
       destruct (dtl (snd (decl_for p (DDirect (DIdent None))))) as [|s l] eqn:E; [|apply andb_false_r].
       cbn [apply_dtl fold_right] in H4. rewrite <- H4 in Hnv. cbn [is_void_ty] in Hnv.
       destruct (fst (decl_for p (DDirect (DIdent None)))); try reflexivity. discriminate Hnv.
-    + exact H2.
     + unfold apply_dtl in *. rewrite H4. apply adjust_id; assumption.
 Qed.
 
 Lemma plist_for_ok : forall l p, Forall U (p :: l) -> forallb param_cond (p :: l) = true ->
-  forallb small (p :: l) = true ->
-  c11_ok_plist (plist_for p l) = true /\ chibicc_ok_plist (plist_for p l) = true /\
-  plist_types (plist_for p l) = p :: l.
+  c11_ok_plist (plist_for p l) = true /\ plist_types (plist_for p l) = p :: l.
 Proof.
-  induction l as [|p' l IH]; intros p HU Hc Hs.
-  - inversion HU as [|? ? Hp _]; subst. cbn [forallb] in Hc, Hs.
-    apply andb_prop in Hc. apply andb_prop in Hs.
-    destruct (param_for_ok p Hp (proj1 Hc) (proj1 Hs)) as [H1 [H2 H3]].
-    cbn [plist_for c11_ok_plist chibicc_ok_plist plist_types]. rewrite H3. auto.
+  induction l as [|p' l IH]; intros p HU Hc.
+  - inversion HU as [|? ? Hp _]; subst. cbn [forallb] in Hc. apply andb_prop in Hc.
+    destruct (param_for_ok p Hp (proj1 Hc)) as [H1 H3].
+    cbn [plist_for c11_ok_plist plist_types]. rewrite H3. auto.
   - inversion HU as [|? ? Hp Hl]; subst.
-    cbn [forallb] in Hc, Hs. apply andb_prop in Hc. apply andb_prop in Hs.
-    destruct (param_for_ok p Hp (proj1 Hc) (proj1 Hs)) as [H1 [H2 H3]].
-    destruct (IH p' Hl (proj2 Hc) (proj2 Hs)) as [G1 [G2 G3]].
-    cbn [plist_for c11_ok_plist chibicc_ok_plist plist_types]. rewrite H1, H2, H3, G1, G2, G3. auto.
+    cbn [forallb] in Hc. apply andb_prop in Hc.
+    destruct (param_for_ok p Hp (proj1 Hc)) as [H1 H3].
+    destruct (IH p' Hl (proj2 Hc)) as [G1 G3].
+    cbn [plist_for c11_ok_plist plist_types]. rewrite H1, H3, G1, G3. auto.
 Qed.
 
-Lemma params_for_ok : forall ps k, Forall U ps -> forallb param_cond ps = true -> forallb small ps = true ->
+Lemma params_for_ok : forall ps k, Forall U ps -> forallb param_cond ps = true ->
   match k, ps with
   | FNoProto, [] => true | FNoProto, _ :: _ => false | FProto, _ => true
   | FVariadic, [] => false | FVariadic, _ :: _ => true
   end = true ->
-  c11_ok_params (params_for ps k) = true /\ chibicc_ok_params (params_for ps k) = true /\
+  c11_ok_params (params_for ps k) = true /\
   param_types (params_for ps k) = ps /\ kind_of (params_for ps k) = k.
 Proof.
-  intros ps k HU Hc Hs Hk. destruct ps as [|p l].
+  intros ps k HU Hc Hk. destruct ps as [|p l].
   - destruct k; try discriminate Hk; cbn; auto.
-  - destruct (plist_for_ok l p HU Hc Hs) as [G1 [G2 G3]].
-    cbn [params_for c11_ok_params chibicc_ok_params param_types kind_of].
+  - destruct (plist_for_ok l p HU Hc) as [G1 G3].
+    cbn [params_for c11_ok_params param_types kind_of].
     destruct k; try discriminate Hk; auto.
 Qed.
 
@@ -153,86 +133,79 @@ Theorem unparse_all : forall t, U t.
 Proof.
   apply ty_ind'.
   - (* leaf *)
-    intros l inner _ _ Hc Hp _ _. cbn [decl_for fst snd]. auto.
+    intros l inner _ Hc _. cbn [decl_for fst snd]. auto.
   - (* pointer *)
-    intros q t IH inner Hv Hs Hc Hp _ _. cbn [decl_for valid_ty small] in *.
-    destruct (IH (DPtr q inner) Hv Hs Hc Hp) as [H1 [H2 [H3 H4]]].
+    intros q t IH inner Hv Hc _. cbn [decl_for valid_ty] in *.
+    destruct (IH (DPtr q inner) Hv Hc) as [H1 [H3 H4]].
     + intros H. discriminate H.
-    + intros H. discriminate H.
-    + split; [exact H1|]. split; [exact H2|]. split; [exact H3|].
+    + split; [exact H1|]. split; [exact H3|].
       rewrite H4. cbn [dtl]. apply apply_dtl_snoc.
   - (* array *)
-    intros n t IH inner Hv Hs Hc Hp Hb _. cbn [decl_for valid_ty small] in *.
+    intros n t IH inner Hv Hc Hb. cbn [decl_for valid_ty] in *.
     apply andb_prop in Hv. destruct Hv as [Hv Hn0]. apply andb_prop in Hv. destruct Hv as [_ Hv].
-    apply andb_prop in Hs. destruct Hs as [Hs Hn1].
     assert (Hnf : is_func_decl inner = false).
     { destruct (is_func_decl inner) eqn:E; [|reflexivity]. destruct (Hb eq_refl) as [_ H]. discriminate H. }
-    destruct (IH (DDirect (DArray (as_direct inner) n)) Hv Hs) as [H1 [H2 [H3 H4]]].
+    destruct (IH (DDirect (DArray (as_direct inner) n)) Hv) as [H1 [H3 H4]].
     + cbn [c11_ok c11_ok_dd]. rewrite as_direct_func, Hnf, (as_direct_c11 inner Hc), Hn0. reflexivity.
-    + cbn [chibicc_ok chibicc_ok_dd]. rewrite (as_direct_chibicc inner Hp), Hn1. reflexivity.
     + intros H. discriminate H.
-    + intros H. discriminate H.
-    + split; [exact H1|]. split; [exact H2|]. split.
+    + split; [exact H1|]. split.
       * rewrite H3. cbn [name_of name_of_dd]. apply as_direct_name.
       * rewrite H4. cbn [dtl dtl_dd]. rewrite as_direct_dtl. apply apply_dtl_snoc.
   - (* function *)
-    intros r ps k IHr IHps inner Hv Hs Hc Hp Hb He. rewrite decl_for_fun.
-    cbn [valid_ty small] in Hv, Hs.
+    intros r ps k IHr IHps inner Hv Hc Hb. rewrite decl_for_fun.
+    cbn [valid_ty] in Hv.
     apply andb_prop in Hv. destruct Hv as [Hv Hk]. apply andb_prop in Hv. destruct Hv as [Hv Hps].
     apply andb_prop in Hv. destruct Hv as [Hv Hvr]. apply andb_prop in Hv. destruct Hv as [Hrf Hra].
     apply negb_true_iff in Hrf. apply negb_true_iff in Hra.
-    apply andb_prop in Hs. destruct Hs as [Hsr Hsps].
     rewrite forallb_param_cond in Hps.
     assert (Hnf : is_func_decl inner = false).
     { destruct (is_func_decl inner) eqn:E; [|reflexivity]. destruct (Hb eq_refl) as [H _]. discriminate H. }
-    assert (Hne : is_empty_decl inner = false).
-    { destruct (is_empty_decl inner) eqn:E; [|reflexivity]. specialize (He eq_refl). discriminate He. }
-    destruct (params_for_ok ps k IHps Hps Hsps Hk) as [G1 [G2 [G3 G4]]].
-    destruct (IHr (DDirect (DFunc (as_direct inner) (params_for ps k))) Hvr Hsr) as [H1 [H2 [H3 H4]]].
+    destruct (params_for_ok ps k IHps Hps Hk) as [G1 [G3 G4]].
+    destruct (IHr (DDirect (DFunc (as_direct inner) (params_for ps k))) Hvr) as [H1 [H3 H4]].
     + cbn [c11_ok c11_ok_dd]. rewrite as_direct_func, Hnf, (as_direct_c11 inner Hc), G1. reflexivity.
-    + cbn [chibicc_ok chibicc_ok_dd]. rewrite as_direct_empty, Hne, (as_direct_chibicc inner Hp), G2. reflexivity.
     + intros _. split; assumption.
-    + intros H. discriminate H.
-    + split; [exact H1|]. split; [exact H2|]. split.
+    + split; [exact H1|]. split.
       * rewrite H3. cbn [name_of name_of_dd]. apply as_direct_name.
       * rewrite H4. cbn [dtl dtl_dd]. rewrite as_direct_dtl, G3, G4. apply apply_dtl_snoc.
 Qed.
 
 (* ------------------------------------------------------------------ headline of part 5 *)
 Theorem declarator_of_roundtrip : forall t x,
-  valid_ty t = true -> small t = true -> (x = None -> is_fun t = false) ->
+  valid_ty t = true ->
   let bd := declarator_of t x in
-  c11_ok (snd bd) = true /\ chibicc_ok (snd bd) = true /\ name_of (snd bd) = x /\
+  c11_ok (snd bd) = true /\ name_of (snd bd) = x /\
   type_of (TLeaf (fst bd)) (snd bd) = t.
 Proof.
-  intros t x Hv Hs Hx. unfold declarator_of, type_of.
-  destruct (unparse_all t (DDirect (DIdent x)) Hv Hs eq_refl eq_refl) as [H1 [H2 [H3 H4]]].
+  intros t x Hv. unfold declarator_of, type_of.
+  destruct (unparse_all t (DDirect (DIdent x)) Hv eq_refl) as [H1 [H3 H4]].
   - intros H. discriminate H.
-  - intros H. destruct x as [x|]; [discriminate H|]. apply Hx. reflexivity.
   - cbn [name_of name_of_dd dtl dtl_dd apply_dtl fold_right] in *. auto.
 Qed.
 
-(* write a type, let parse.c read it: the same type comes back *)
+(* write a type, let parse.c read it: the same type comes back (or the implementation limit is reported) *)
 Theorem unparse_parse : forall t x rest,
-  valid_ty t = true -> small t = true -> (x = None -> is_fun t = false) -> stops rest ->
+  valid_ty t = true -> stops rest ->
   let bd := declarator_of t x in
+  parse_declarator (print_decl (snd bd) ++ rest) (MBase (fst bd)) = TooLarge \/
   exists m, parse_declarator (print_decl (snd bd) ++ rest) (MBase (fst bd)) = Ok (x, m, rest) /\
             shape m = unqual t.
 Proof.
-  intros t x rest Hv Hs Hx Hr bd.
-  destruct (declarator_of_roundtrip t x Hv Hs Hx) as [H1 [H2 [H3 H4]]]. fold bd in H1, H2, H3, H4.
-  destruct (declarator_is_c11 (snd bd) (MBase (fst bd)) (TLeaf (fst bd)) rest H1 H2 Hr eq_refl) as [m [Hm Hsh]].
+  intros t x rest Hv Hr bd.
+  destruct (declarator_of_roundtrip t x Hv) as [H1 [H3 H4]]. fold bd in H1, H3, H4.
+  destruct (declarator_is_c11 (snd bd) (MBase (fst bd)) (TLeaf (fst bd)) rest H1 Hr eq_refl) as [Hm|[m [Hm Hsh]]];
+    [left; exact Hm|right].
   exists m. rewrite H3, H4 in *. split; assumption.
 Qed.
 
 Theorem unparse_parse_typename : forall t rest,
-  valid_ty t = true -> small t = true -> is_fun t = false -> stops rest ->
+  valid_ty t = true -> stops rest ->
   let bd := declarator_of t None in
+  parse_typename (TBase (fst bd) :: print_decl (snd bd) ++ rest) = TooLarge \/
   exists m, parse_typename (TBase (fst bd) :: print_decl (snd bd) ++ rest) = Ok (m, rest) /\
             shape m = unqual t.
 Proof.
-  intros t rest Hv Hs Hf Hr bd.
-  destruct (declarator_of_roundtrip t None Hv Hs (fun _ => Hf)) as [H1 [H2 [H3 H4]]]. fold bd in H1, H2, H3, H4.
-  destruct (typename_is_c11 (fst bd) (snd bd) rest H1 H2 H3 Hr) as [m [Hm Hsh]].
+  intros t rest Hv Hr bd.
+  destruct (declarator_of_roundtrip t None Hv) as [H1 [H3 H4]]. fold bd in H1, H3, H4.
+  destruct (typename_is_c11 (fst bd) (snd bd) rest H1 H3 Hr) as [Hm|[m [Hm Hsh]]]; [left; exact Hm|right].
   exists m. rewrite H4 in Hsh. split; assumption.
 Qed.
